@@ -33,7 +33,7 @@ from harness.lib import Family, Verdict, deep_eq, drive, jval
 TOL = 1e-8          # relative, model tensor and reported numbers
 TOL_SCALE = 1e-6    # cp_als whole-run scale (rounding is amplified by the condition of the sweeps)
 PRINTS = [0, 1, 2, 7]
-SCALES = [0.5, 3.0, 1000.0]
+SCALES = [1e-9, 1e-6, 1e-3, 0.5, 3.0, 1e3, 1e6, 1e9]  # 18 orders of magnitude: absolute thresholds show only far from 1
 
 RULE = ("paired runs of the real drivers on small planted low-rank problems (orders 2..3, 4 in thorough; distinct "
         "extents 3..7; rank 2..3; 5% noise, mixed signs for CP-ALS/Tucker/HOSVD/GCP-Gaussian, Poisson counts with "
@@ -44,8 +44,12 @@ RULE = ("paired runs of the real drivers on small planted low-rank problems (ord
         "dense only, the refusal itself is checked), stored order of the sparse entries shuffled; printing intervals "
         "{0,1,2,7} (hosvd verbosity {0,1,3,10}); same global seed twice (bitwise, except where ARPACK's own start "
         "vector enters: 1e-8) and different seeds (different starts), the drawn matrices against the stream model; "
-        "scale factors {0.5,3,1000} for cp_als (stoptol=0, same iteration count), tucker_als, hosvd only (Poisson / "
-        "GCP losses are not scale-equivariant; with a fixed guess gcp_opt is not either); all 6 mode relabellings for "
+        "scale factors {1e-9,1e-6,1e-3,0.5,3,1e3,1e6,1e9} (absolute thresholds only show far from 1) for cp_als "
+        "(3..6 outer iterations, stoptol 0 / 1e-4 / 1e-3 on the scale-free fit, given and seeded random start, dense "
+        "and sparse), tucker_als (same), hosvd (sequential and not; automatic ranks at tol 3e-4..0.2 and given/mixed "
+        "ranks on data with extra rank-one detail of relative size 1e-3..3e-2 so that the rank decision is sensitive): "
+        "model tensor / c, fit, residual / c, chosen ranks and iteration counts against the unscaled run; not for "
+        "CP-APR / GCP (Poisson / GCP losses are not scale-equivariant; with a fixed guess gcp_opt is not either); all 6 mode relabellings for "
         "N=3 of data, guess, ranks and dimorder for cp_als, tucker_als, hosvd (sequential and not) and gcp_opt "
         "(cp_apr has a fixed mode order and is excluded). A mismatch above tolerance is a violation unless the same "
         "driver amplifies a 1e-13 relative perturbation of the data (same representation) to within a factor 100 of "
@@ -88,7 +92,15 @@ def make_problem(case):
         fac = [rs.uniform(0.2, 1.0, (s, R)) * rs.choice([-1.0, 1.0], (s, R)) for s in shape]
         lam = np.linspace(3.0, 1.5, R)
         X = ttb.ktensor(fac, lam).full().data.copy()
-        X = X + case.get("noise", 0.05) * np.linalg.norm(X) / np.sqrt(X.size) * rs.standard_normal(X.shape)
+        nrm = np.linalg.norm(X)
+        if case.get("detail"):
+            # small-but-not-negligible extra rank-one components (relative strengths case["detail"]): the automatic
+            # rank decision of hosvd is sensitive to them
+            for eps in case["detail"]:
+                vs = [rs.standard_normal(sh) for sh in shape]
+                D = ttb.ktensor([v.reshape(-1, 1) / np.linalg.norm(v) for v in vs], np.array([1.0])).full().data
+                X = X + eps * nrm * D
+        X = X + case.get("noise", 0.05) * nrm / np.sqrt(X.size) * rs.standard_normal(X.shape)
         if case.get("sparsify"):
             X[rs.uniform(size=X.shape) < 0.3] = 0.0
     else:  # counts
@@ -176,8 +188,9 @@ def run_alg(alg, data, case, init=None, printitn=0, dimorder=None, ranks=None, s
                 res = {"full": M.full().data, "nums": {"fit": o["fit"], "normresidual": o["normresidual"]},
                        "ints": {"iters": o["iters"]}, "init": [None if u is None else np.array(u) for u in U0]}
             elif alg == "hosvd":
+                hr = ranks if ranks is not None else case.get("hranks")
                 M = ttb.hosvd(data, case.get("tol", 0.2), verbosity=printitn, dimorder=dimorder,
-                              sequential=case.get("sequential", True))
+                              sequential=case.get("sequential", True), ranks=None if hr is None else list(hr))
                 F = M.full().data
                 D = data.full().data if isinstance(data, ttb.sptensor) else data.data
                 res = {"full": F, "nums": {"relerr": float(np.linalg.norm(D - F) / np.linalg.norm(D))},
@@ -595,22 +608,42 @@ class Seed(Family):
 
 
 class Scale(Family):
-    """scaling the data by c > 0 scales the CP / Tucker model by c and leaves the fit unchanged."""
+    """scaling the data by c > 0 scales the CP / Tucker model by c and leaves fit, chosen ranks and iteration
+    counts unchanged — for c over 18 orders of magnitude (an absolute threshold anywhere in a driver shows only
+    far away from 1)."""
     name = "scale"
-    theorems = ("C18_scale_als_step", "C18_scale_cpals_run_partial", "C18_scale_fit", "C18_scale_hosvd",
-                "C18_scale_hosvd_rank", "C18_scale_tucker_step")
+    theorems = ("C18_scale_als_step", "C18_scale_als_zero_guard", "C18_scale_cpals_run_partial", "C18_scale_fit",
+                "C18_scale_hosvd", "C18_scale_hosvd_rank", "C18_scale_tucker_step")
 
     def gen(self, rng, tier):
         out = []
         reps = 6 if tier == "quick" else 30
-        for alg in ("cp_als", "tucker_als", "hosvd"):
+        for alg in ("cp_als", "tucker_als"):
             for k in range(reps):
                 c = base_case(rng, tier, alg)
-                c["stoptol"] = 0
+                c["maxiters"] = rng.choice([3, 4, 6])           # at least 3 outer iterations
+                c["stoptol"] = [0, 1e-4, 1e-3][k % 3]            # the stop test is on the (scale-free) fit
                 c["rep"] = "sparse" if (alg == "cp_als" and k % 3 == 2) else "dense"
+                if alg == "cp_als" and k % 6 == 4:
+                    c["init"] = "random"
+                    c["seed"] = rng.randrange(1 << 20)
                 n = len(c["shape"])
                 c["dimorder"] = rng.sample(range(n), n)
                 out.append(c)
+        for k in range(reps + 2):
+            c = base_case(rng, tier, "hosvd")
+            n = len(c["shape"])
+            c["rep"] = "dense"
+            c["dimorder"] = rng.sample(range(n), n)
+            c["sequential"] = k % 2 == 0
+            # data with small-but-above-threshold detail and little noise; tolerances from "keeps everything"
+            # to "keeps the planted part only", so that the automatic rank decision is sensitive
+            c["detail"] = [rng.choice([3e-2, 1e-2]), rng.choice([3e-3, 1e-3])]
+            c["noise"] = rng.choice([1e-4, 1e-3])
+            c["tol"] = [3e-3, 1e-2, 3e-4, 0.05, 0.2][k % 5]
+            if k % 4 == 3:  # given ranks (0 = automatic for that mode)
+                c["hranks"] = [rng.choice([0, 1, 2, min(3, sh)]) for sh in c["shape"]]
+            out.append(c)
         return out
 
     def evaluate(self, cases):
@@ -619,7 +652,16 @@ class Scale(Family):
             alg = c["alg"]
             X, init = make_problem(c)
             tags = [alg, c["rep"]]
-            kw = dict(init=init_for(alg, c, init), dimorder=c["dimorder"])
+            kw = dict(dimorder=c["dimorder"])
+            if c.get("init") == "random":
+                kw.update(init="random", seed=c["seed"])
+                tags.append("random-start")
+            else:
+                kw["init"] = init_for(alg, c, init)
+            if alg == "hosvd":
+                tags.append("given-ranks" if c.get("hranks") else "auto-ranks")
+            else:
+                tags.append(f"stoptol={c.get('stoptol', 0):g}")
             eigs = []
             orig = scipy.linalg.eigh
 
@@ -637,26 +679,40 @@ class Scale(Family):
             impl = {"c=1": brief(base), **{f"c={s:g}": brief(r) for s, r in zip(SCALES, runs)}}
             if base.get("reject") or any(r.get("reject") for r in runs):
                 same = all(bool(r.get("reject")) == bool(base.get("reject")) for r in runs)
-                out.append(Verdict("ok" if same else "violation", "" if same else f"{alg}: raises for some scale factors only",
+                bad = [f"{s:g}" for s, r in zip(SCALES, runs) if bool(r.get("reject")) != bool(base.get("reject"))]
+                out.append(Verdict("ok" if same else "violation",
+                                   "" if same else f"{alg}: raises for the scale factors {bad} only",
                                    impl, None, None, tags + ["reject"], False))
                 continue
+            # HOSVD: is the rank decision of the unscaled run itself at a tie (float cumulative sums decide)?
+            tie = False
+            thresh = None
+            if alg == "hosvd":
+                d = len(c["shape"])
+                thresh = (c["tol"] ** 2) * float((X ** 2).sum()) / d
+                for D in eigs:
+                    desc = np.sort(D)[::-1]
+                    if np.min(np.abs(np.cumsum(desc[::-1])[::-1] - thresh)) / max(thresh, 1e-300) < 1e-9:
+                        tie = True
             tol = TOL_SCALE if alg == "cp_als" else TOL
             worst, what, at = 0.0, "", 1.0
             for s, r in zip(SCALES, runs):
                 w, wh = compare(base, r, scale=s)
                 if w > worst:
                     worst, what, at = w, wh, s
+            if tie and worst > tol:
+                out.append(Verdict("ok", "rank decision at a tie with the threshold", impl, None, None,
+                                   tags + ["threshold-tie"], False))
+                continue
             out.append(judge(worst, what, tol, tags, f"{alg} data scaled by {at:g}",
                              lambda: sensitivity(alg, X, c["rep"], c, **kw), impl))
-            # HOSVD's rank decision against the model, on the recorded eigenvalues
-            if alg == "hosvd" and out[-1].status == "ok":
-                d = len(c["shape"])
-                thresh = (c["tol"] ** 2) * float((X ** 2).sum()) / d
+            # HOSVD's rank decision against the model, on the recorded eigenvalues (automatic modes only)
+            if alg == "hosvd" and out[-1].status == "ok" and not tie:
+                hr = c.get("hranks") or [0] * len(c["shape"])
                 for k, D in zip(c["dimorder"], eigs):
+                    if hr[k] != 0:
+                        continue
                     desc = np.sort(D)[::-1]
-                    margin = np.min(np.abs(np.cumsum(desc[::-1])[::-1] - thresh)) / max(thresh, 1e-300)
-                    if margin < 1e-9:
-                        continue  # exactly at the threshold: the float cumulative sums decide
                     reqs.append({"op": "c18_hosvd_rank", "eigs": jval(desc), "thresh": jval(thresh)})
                     slots.append((len(out) - 1, base["ints"]["core"][k], k))
         for (k, got, mode), m in zip(slots, drive(reqs)):
